@@ -112,6 +112,8 @@ func alphabet() []record {
 		{tag: "foreign", raw: `arch=c000003e syscall=257 success=yes exit=3 comm="cat" exe="/usr/bin/cat"`},
 		{tag: "blank", raw: " "},
 		{tag: "garbled", raw: `apparmor="DEN`},
+		{tag: "odd-json", raw: `odd`}, // journald only: well-formed JSON that is not a record (MESSAGE as a byte array, a bare string)
+		{tag: "bad-mask", aa: true, noise: true, fields: file("DENIED", "open", "foo", "/srv/data/badmask", "r#")}, // shown or not; must not stop -r
 		{tag: "long-foreign", raw: `syscall=1 comm="x" data=` + long},
 		{tag: "bulk-foreign", raw: "bulk"}, // 90 foreign lines of ~1 KiB: more than one scanner buffer of ordinary lines
 		{tag: "long-apparmor", aa: true, fields: file("DENIED", "open", "foo", "/srv/"+long, "r")},
@@ -163,6 +165,9 @@ func line(r record, seq, carrier int) string {
 	default:
 		if r.tag == "garbled" {
 			return `{"MESSAGE":"audit: apparmor=\"DEN`
+		}
+		if r.tag == "odd-json" {
+			return `{"_SYSTEMD_UNIT":"apparmor.service","MESSAGE":[27,91,49]}` + "\n" + `"apparmor"`
 		}
 		b, _ := json.Marshal(map[string]string{"MESSAGE": "audit: type=1400 audit(" + ts + "): " + body, "_TRANSPORT": "kernel"})
 		return string(b)
